@@ -83,7 +83,8 @@ def _merge_same_type(prop1: Property, prop2: Property) -> Property | None | Prop
         inner_property = merge_properties(prop1.inner_property, prop2.inner_property)  # type: ignore
         if isinstance(inner_property, PropertyError):
             return PropertyError(detail=f"can't merge list properties: {inner_property.detail}")
-        prop1.inner_property = inner_property
+        # `prop1` may be the allOf parent's own property object: merge into a copy, never into the parent
+        prop1 = evolve(prop1, inner_property=inner_property)
 
     # For all other property types, there aren't any special attributes that affect validation, so just
     # apply the rules for common attributes like "description".
